@@ -82,9 +82,38 @@ pub use types::{
 #[macro_export]
 macro_rules! wallet_lock {
 	($wallet_inst: expr, $wallet: ident) => {
+		#[cfg(feature = "verif_hooks")]
+		$crate::verif_hooks::before_wallet_lock();
 		let inst = $wallet_inst.clone();
 		let mut w_lock = inst.lock();
 		let w_provider = w_lock.lc_provider()?;
 		let $wallet = w_provider.wallet_inst()?;
 	};
+}
+
+/// Verification-only hooks, compiled only with the (default-off) cargo feature
+/// `verif_hooks`. Gives an external harness access to the crate-internal pure
+/// selection functions and a callback that runs immediately before every
+/// `wallet_lock!` acquisition (used to own the schedule of concurrent operations).
+#[cfg(feature = "verif_hooks")]
+pub mod verif_hooks {
+	pub use crate::internal::{keys, scan, selection, tx, updater};
+	use std::sync::RwLock;
+
+	lazy_static! {
+		static ref BEFORE_WALLET_LOCK: RwLock<Option<Box<dyn Fn() + Send + Sync>>> =
+			RwLock::new(None);
+	}
+
+	/// Install (or clear) the callback invoked before each `wallet_lock!`
+	pub fn set_before_wallet_lock(f: Option<Box<dyn Fn() + Send + Sync>>) {
+		*BEFORE_WALLET_LOCK.write().unwrap() = f;
+	}
+
+	/// Called by `wallet_lock!`
+	pub fn before_wallet_lock() {
+		if let Some(f) = BEFORE_WALLET_LOCK.read().unwrap().as_ref() {
+			f();
+		}
+	}
 }
